@@ -56,26 +56,45 @@ class Kind:
     def logs_ctor(self) -> bool:
         return self.post_init is not None
 
+    out_only_decl: Optional[str] = None      # how the kind declares a field the constructor does not take
+
+    def out_only_unsupported(self, shape) -> Optional[str]:
+        """Kinds.tla Supports, first two conjuncts"""
+        if self.out_only_decl is None and any(f.get("dir", "io") == "out" for f in shape):
+            return "the kind has no output-only fields"
+        return None
+
+    def _derived(self, shape, names):
+        from .layoutreplay import derived_value
+        return [(names.field(f["id"]), derived_value(shape, i)) for i, f in enumerate(shape, start=1) if f.get("dir", "io") == "out"]
+
     def _fields(self, shape, names):
         for f in shape:
+            if f.get("dir", "io") == "out":
+                yield names.field(f["id"]), ANN[f["ty"]], False, Fac(self.out_only_decl)
+                continue
             ann = f"typing.Optional[{ANN[f['ty']]}]" if names.pytype(f["ty"], f["req"]) is not PYTYPES[f["ty"]] else ANN[f["ty"]]
             fac = names.factory(f["ty"])
             yield names.field(f["id"]), ann, f["req"], (Fac(self.factory_fmt.format(fac.__name__)) if fac and not f["req"] else names.default(f["ty"]))
 
-    def _hook(self, with_log: bool) -> str:
-        if not with_log or self.post_init is None:
+    set_fmt = "self.{} = {!r}"
+
+    def _hook(self, with_log: bool, derived=()) -> str:
+        if (not with_log and not derived) or self.post_init is None:
             return ""
-        return f"    def {self.post_init}:\n        ctor_log.append('post_init')\n"
+        body = (["ctor_log.append('post_init')"] if with_log else []) + [self.set_fmt.format(n, v) for n, v in derived]
+        return f"    def {self.post_init}:\n" + "".join(f"        {b}\n" for b in body)
 
 
 class DataclassKind(Kind):
     name = "dataclass"
     factory_fmt = "dataclasses.field(default_factory={})"
     post_init = "__post_init__(self)"
+    out_only_decl = "dataclasses.field(init=False)"
 
     def source(self, shape, names, with_log=False):
         body = "".join(f"    {n}: {a}\n" if req else f"    {n}: {a} = {d!r}\n" for n, a, req, d in self._fields(shape, names))
-        return "@dataclasses.dataclass(kw_only=True)\nclass Model:\n" + body + self._hook(with_log)
+        return "@dataclasses.dataclass(kw_only=True)\nclass Model:\n" + body + self._hook(with_log, self._derived(shape, names))
 
 
 class NamedTupleKind(Kind):
@@ -127,10 +146,12 @@ class AttrsKind(Kind):
     name = "attrs"
     factory_fmt = "attrs.Factory({})"
     post_init = "__attrs_post_init__(self)"
+    out_only_decl = "attrs.field(init=False)"
+    set_fmt = "object.__setattr__(self, {!r}, {!r})"
 
     def source(self, shape, names, with_log=False):
         body = "".join(f"    {n}: {a}\n" if req else f"    {n}: {a} = {d!r}\n" for n, a, req, d in self._fields(shape, names))
-        return "@attrs.define(kw_only=True)\nclass Model:\n" + body + self._hook(with_log)
+        return "@attrs.define(kw_only=True)\nclass Model:\n" + body + self._hook(with_log, self._derived(shape, names))
 
     def construct(self, cls, vals):
         # attrs strips leading underscores from constructor parameter names
@@ -147,9 +168,22 @@ class PydanticKind(Kind):
             return "pydantic: names with a leading underscore are private attributes, not fields"
         return None
 
+    out_only_decl = "<computed field>"
+
+    def out_only_unsupported(self, shape):
+        dirs = [f.get("dir", "io") for f in shape]
+        if "out" in dirs and "io" in dirs[dirs.index("out"):]:
+            return "pydantic lists computed fields after the ordinary fields: an output-only field must come last"
+        return None
+
+    def _computed(self, shape, names) -> str:
+        return "".join(f"    @pydantic.computed_field\n    @property\n    def {n}(self) -> {ANN[f['ty']]}:\n        return {v!r}\n"
+                       for (n, v), f in zip(self._derived(shape, names), [f for f in shape if f.get("dir", "io") == "out"]))
+
     def source(self, shape, names, with_log=False):
-        body = "".join(f"    {n}: {a}\n" if req else f"    {n}: {a} = {d!r}\n" for n, a, req, d in self._fields(shape, names))
-        return "class Model(pydantic.BaseModel):\n" + body + self._hook(with_log)
+        io = [f for f in shape if f.get("dir", "io") == "io"]
+        body = "".join(f"    {n}: {a}\n" if req else f"    {n}: {a} = {d!r}\n" for n, a, req, d in self._fields(io, names))
+        return "class Model(pydantic.BaseModel):\n" + body + self._computed(shape, names) + self._hook(with_log)
 
     def construct(self, cls, vals):
         import pydantic
@@ -226,7 +260,7 @@ class DataclassPositionalKind(DataclassKind):
         return _defaults_last(shape)
 
     def source(self, shape, names, with_log=False):
-        return "@dataclasses.dataclass\nclass Model:\n" + _body(self._fields(shape, names)) + self._hook(with_log)
+        return "@dataclasses.dataclass\nclass Model:\n" + _body(self._fields(shape, names)) + self._hook(with_log, self._derived(shape, names))
 
 
 class DataclassInheritedKind(DataclassKind):
@@ -236,7 +270,7 @@ class DataclassInheritedKind(DataclassKind):
     def source(self, shape, names, with_log=False):
         fs = list(self._fields(shape, names))
         return ("@dataclasses.dataclass(kw_only=True)\nclass Base:\n" + _body(fs[:1]) + "@dataclasses.dataclass(kw_only=True)\nclass Model(Base):\n"
-                + _body(fs[1:]) + self._hook(with_log))
+                + _body(fs[1:]) + self._hook(with_log, self._derived(shape, names)))
 
 
 class AttrsPositionalKind(AttrsKind):
@@ -246,7 +280,7 @@ class AttrsPositionalKind(AttrsKind):
         return _defaults_last(shape)
 
     def source(self, shape, names, with_log=False):
-        return "@attrs.define\nclass Model:\n" + _body(self._fields(shape, names)) + self._hook(with_log)
+        return "@attrs.define\nclass Model:\n" + _body(self._fields(shape, names)) + self._hook(with_log, self._derived(shape, names))
 
 
 class AttrsInheritedFrozenKind(AttrsKind):
@@ -256,15 +290,15 @@ class AttrsInheritedFrozenKind(AttrsKind):
     def source(self, shape, names, with_log=False):
         fs = list(self._fields(shape, names))
         return ("@attrs.frozen(kw_only=True)\nclass Base:\n" + _body(fs[:1]) + "@attrs.frozen(kw_only=True)\nclass Model(Base):\n" + _body(fs[1:])
-                + self._hook(with_log))
+                + self._hook(with_log, self._derived(shape, names)))
 
 
 class PydanticInheritedKind(PydanticKind):
     name = "pydantic_inherited"
 
     def source(self, shape, names, with_log=False):
-        fs = list(self._fields(shape, names))
-        return "class Base(pydantic.BaseModel):\n" + _body(fs[:1]) + "class Model(Base):\n" + _body(fs[1:]) + self._hook(with_log)
+        fs = list(self._fields([f for f in shape if f.get("dir", "io") == "io"], names))
+        return "class Base(pydantic.BaseModel):\n" + _body(fs[:1]) + "class Model(Base):\n" + _body(fs[1:]) + self._computed(shape, names) + self._hook(with_log)
 
 
 class TypedDictInheritedKind(TypedDictKind):
